@@ -6,13 +6,13 @@ Number and text classes follow DESIGN.md 3.2.
 """
 import math
 
-NAME_POOL = ["words", "phones", "e\u0301", "\u212b", "t 1", 'q"uote', 'dq""uote', "a=b", "7", "é𝄞", "x" * 40, "Mary's", "tier[1]", "100%", " lead", "trail ", "  both  ", "xmax = 9", "xmin=1.5", "number = 3"]  # (the last three look like fields of the long layout)
+NAME_POOL = ["words", "phones", "e\u0301", "\u212b", "t 1", 'q"uote', 'dq""uote', "a=b", "7", "é𝄞", "x" * 40, "Mary's", "tier[1]", "100%", " lead", "trail ", "  both  ", "xmax = 9", "xmin=1.5", "number = 3", "na\ufeffme", "{0}", "{laugh}", "%s"]  # (the last three look like fields of the long layout)
 LABEL_POOL = [
     "", "a", "hello world", "7", "3.14", "-0", "x = y", 'say "hi"', '""', '"', 'a""b', '"start', 'end"', '"both"', "line1\nline2", "a\n\nb",
     'q"\n"r', "é", "日本語", "𝄞 clef", "tab\tinside", "a!b", "! bang", "<exists>", "semi;colon", "back\\slash", "x" * 300, "a  b", "%d %s",
     "e\u0301tude", "\u212bngstr\u00f6m", "\u1112\u1161\u11ab", "a\u0303o \u00e3o", "\ufb01n", "1e-05", "xmin", "text", "mark", "number", "size = 3", "null\x00byte", "-", "--", "0", "None", "false", "[]", "_",
     "vt\x0btab", "form\x0cfeed", "nel\x85here", "ls\u2028sep", "ps\u2029sep", "fs\x1cgs\x1drs\x1e",  # what str.splitlines() splits on, besides \n
-    "step size = 0.25", "window size=0", "size = 0",
+    "step size = 0.25", "window size=0", "size = 0", "\ufeff", "mid\ufeffbom", "\ufefflead", "100% sure", "50%% creaky", "{laugh}", "a}b", "{",
     "[noise], [laugh]", '"a": [1, 2], "b"', "}, {", "\\n not a newline", "\\u00e9", "ooTextFile", "says ooTextFile here", "File type",
 ]
 WS_LABELS = [" ", "  \t", "\n", " pad ", "\nlead", "trail \n", "\t a  b \t", " \u00e9 ", "\u00a0nb", "wide\u3000", "\x1funit", "em\u2003", "\x85nel", "\tindented"]  # surrounding / only white space (file-level data; tiers store labels stripped)
@@ -188,6 +188,9 @@ def _gen_textgrid(rng, ntiers=(1, 5), nentries=(0, 7), keywords=False, min_gap=2
         classes.add("many-tiers")
     for _ in range(ntier):
         name = gen_name(rng, keywords)
+        if names and rng.random() < 0.04 and names[-1].swapcase() != names[-1]:
+            name = names[-1].swapcase()  # "Word" beside "word": two names, as far as the tier map is concerned
+            classes.add("names-differing-in-case-only")
         while name in names:
             name = name + "_"
         names.append(name)
